@@ -90,9 +90,15 @@ package commands
 // filter(window) -> close(periods) -> query(report) and handed to Process in exactly that order (the
 // check stage sees the journal as written, before valuation adds its own bookings), and the report that
 // the query stage fills is the one that is rendered - only after the pipeline succeeded.
+// @diffwindow (C02, "with --diff a cell shows only the change inside its period"): the window stage lets every
+// booking of the partition's span through and Align attributes the bookings before the first reported period
+// to the first column - which is what the cumulative report needs; with --diff nothing dated before the first
+// reported period may enter the report, i.e. the span handed to the window stage must start where the first
+// reported period starts (with --last n it did not: repaired, the partition is cut with Reported()).
 //@ func (balanceRunner).execute
 //@   requires cmd != nil && len(args) >= 1
 //@   modifies *
+//@   callback Reported=0
 //@   callback Check=0
 //@   callback ComputePrices=0
 //@   callback Valuate=0
@@ -101,13 +107,16 @@ package commands
 //@   callback Into=0
 //@   callback Process=1
 //@   callback Render=2
-//@   ensures [C02] [C01] [C04] @count: result == nil ==> tlen() == old(tlen()) + 8
-//@   ensures [C02] [C01] [C04] @order: result == nil ==> tkind(old(tlen())) == kind("Check") && tkind(old(tlen()) + 1) == kind("ComputePrices") && tkind(old(tlen()) + 2) == kind("Valuate")
-//@        && tkind(old(tlen()) + 3) == kind("Filter") && tkind(old(tlen()) + 4) == kind("CloseAccounts") && tkind(old(tlen()) + 5) == kind("Into")
-//@        && tkind(old(tlen()) + 6) == kind("Process") && tkind(old(tlen()) + 7) == kind("Render")
-//@   ensures [C02] @close: result == nil ==> targ("CloseAccounts", 2, old(tlen()) + 4) == r.close
-//@   ensures [C02] [C01] @six: result == nil ==> len(targ("Process", 0, old(tlen()) + 6)) == 6
-//@   ensures [C02] [C01] @same: result == nil ==> targ("Render", 0, old(tlen()) + 7) == dyn(targ("Into", 0, old(tlen()) + 5), "*balance.Report")
+//@   ensures [C02] [C01] [C04] @count: result == nil ==> tlen() == old(tlen()) + 8 + (r.diff ? 1 : 0)
+//@   ensures [C02] [C01] [C04] @order: result == nil ==> tkind(old(tlen()) + (r.diff ? 1 : 0)) == kind("Check") && tkind(old(tlen()) + (r.diff ? 1 : 0) + 1) == kind("ComputePrices") && tkind(old(tlen()) + (r.diff ? 1 : 0) + 2) == kind("Valuate")
+//@        && tkind(old(tlen()) + (r.diff ? 1 : 0) + 3) == kind("Filter") && tkind(old(tlen()) + (r.diff ? 1 : 0) + 4) == kind("CloseAccounts") && tkind(old(tlen()) + (r.diff ? 1 : 0) + 5) == kind("Into")
+//@        && tkind(old(tlen()) + (r.diff ? 1 : 0) + 6) == kind("Process") && tkind(old(tlen()) + (r.diff ? 1 : 0) + 7) == kind("Render")
+//@   ensures [C02] @close: result == nil ==> targ("CloseAccounts", 2, old(tlen()) + (r.diff ? 1 : 0) + 4) == r.close
+//@   ensures [C02] [C01] @six: result == nil ==> len(targ("Process", 0, old(tlen()) + (r.diff ? 1 : 0) + 6)) == 6
+//@   ensures [C02] [C01] @same: result == nil ==> targ("Render", 0, old(tlen()) + (r.diff ? 1 : 0) + 7) == dyn(targ("Into", 0, old(tlen()) + (r.diff ? 1 : 0) + 5), "*balance.Report")
+//@   ensures [C02] @diffwindow: result == nil && r.diff ==> tkind(old(tlen())) == kind("Reported")
+//@        && targ("Filter", 0, old(tlen()) + 4).span.Start == tres("Reported", old(tlen())).span.Start
+//@        && targ("Filter", 0, old(tlen()) + 4).periods == tres("Reported", old(tlen())).periods
 //
 // execute (check): the verdict of the checker is the verdict of the command - also with --write: the
 // assertions are only written after the journal passed.
